@@ -155,6 +155,9 @@ def check_case(case, rec):
             raise Mismatch("C18:permutations", f"amplitude {i} {ln}", perms, got_perms)
         with impl(ID, "to_goofit"):
             code = ln.to_goofit(states[1:])
+            code_again = ln.to_goofit(states[1:])
+        if code_again != code:
+            raise Mismatch("C18:unstable", f"amplitude {i} {ln}: two calls of to_goofit on the same line give different text", code[:400], code_again[:400])
         got_sf = Counter(GR.spin_factors(code))
         if got_sf != sfs:
             raise Mismatch("C18:spin-factors", f"amplitude {i} {ln} ({a['key']}, {case['lang']})", sorted(sfs.elements()), sorted(got_sf.elements()))
